@@ -234,13 +234,26 @@ type c04Sender struct {
 	reply func(c *c04Call) (*pb.Message, error)
 }
 
+// c04ReqErr: a third of the failing peers fail with a wrapped context.Canceled, a third with a
+// wrapped context.DeadlineExceeded (what a transport hands out on its own), while the caller's context is alive
+func c04ReqErr(p peer.ID) error {
+	b := []byte(p)
+	switch int(b[len(b)-1]) % 3 {
+	case 1:
+		return fmt.Errorf("c04: request failed: stream aborted by the transport: %w", context.Canceled)
+	case 2:
+		return fmt.Errorf("c04: request failed: transport timeout: %w", context.DeadlineExceeded)
+	}
+	return errors.New("c04: request failed")
+}
+
 func (s *c04Sender) SendRequest(ctx context.Context, p peer.ID, m *pb.Message) (*pb.Message, error) {
 	c := s.gate.park(ctx, s.net, p, m)
 	if err := ctx.Err(); err != nil {
 		return nil, err
 	}
 	if c.fail {
-		return nil, errors.New("c04: request failed")
+		return nil, c04ReqErr(p)
 	}
 	return s.reply(c)
 }
@@ -250,7 +263,7 @@ func (s *c04Sender) SendMessage(ctx context.Context, p peer.ID, m *pb.Message) e
 		return err
 	}
 	if c.fail {
-		return errors.New("c04: request failed")
+		return c04ReqErr(p)
 	}
 	return nil
 }
